@@ -98,6 +98,11 @@ theorem inv1_dSend  (s s' : State) (i : Nat) (hI : Inv1 s) (h : step cfg s (.dSe
   simp only [step] at h
   (repeat' split at h) <;> close_case1
 
+theorem inv1_uFail  (s s' : State) (i : Nat) (hI : Inv1 s) (h : step cfg s (.uFail i) = some s') : Inv1 s' := by
+  obtain ⟨a1,a2,a3,a4,a5,a6,a7⟩ := hI
+  simp only [step] at h
+  (repeat' split at h) <;> close_case1
+
 theorem inv1_cleanup  (s s' : State) (i : Nat) (hI : Inv1 s) (h : step cfg s (.cleanup i) = some s') : Inv1 s' := by
   obtain ⟨a1,a2,a3,a4,a5,a6,a7⟩ := hI
   simp only [step] at h
@@ -145,6 +150,7 @@ theorem inv1_step (s s' : State) (e : Ev) (hI : Inv1 s) (h : step cfg s e = some
   | dTimeout i => exact inv1_dTimeout cfg s s' i hI h
   | dPacket i => exact inv1_dPacket cfg s s' i hI h
   | dSend i => exact inv1_dSend cfg s s' i hI h
+  | uFail i => exact inv1_uFail cfg s s' i hI h
   | cleanup i => exact inv1_cleanup cfg s s' i hI h
   | uRecv i k => exact inv1_uRecv cfg s s' i k hI h
   | uStep i => exact inv1_uStep cfg s s' i hI h
